@@ -128,7 +128,8 @@ func (c *CDCServer) handleRequest(cdcRequest *modelrequest.CDCRequest, writer ht
 	}
 	requestModel := handler.generateModel()
 	if err := mapstructure.Decode(cdcRequest.RequestData, requestModel); err != nil {
-		c.handleError(writer, fmt.Sprintf("fail to decode the %s request, error: %s", requestType, err.Error()), http.StatusInternalServerError)
+		// the mapstructure error text quotes the offending values, which may be credentials
+		c.handleError(writer, fmt.Sprintf("fail to decode the %s request, check the types of the fields", requestType), http.StatusInternalServerError)
 		return nil
 	}
 	log.Info("request receive", zap.String("type", requestType), zap.String("data", GetRequestInfo(requestModel)))
